@@ -50,8 +50,13 @@ split_part = split_offset
 
 
 def _pattern(name):
-    import chameleon.utils as u
-    return getattr(u, name)
+    import chameleon.parser
+    import chameleon.tal
+    import chameleon.utils
+    for mod in (chameleon.utils, chameleon.parser, chameleon.tal):
+        if hasattr(mod, name):
+            return getattr(mod, name)
+    raise NameError(name)
 
 
 def re_nomatch(name, how, s):
